@@ -276,6 +276,40 @@ func c14ProcessEvent(c *Ctx, pe *ssa.Function) {
 			"dispatchDelayedEvents(TypeOf(event)) is deferred (runs after both loops) only when runningInAddEvent is false", "facts: "+join(facts.Sorted()))
 	})
 	if nDef == 0 {
+		// the gate may sit inside a deferred function literal: `defer func() { if !runningInAddEvent { dispatch… } }()`
+		eachInstr(pe, func(in ssa.Instruction) {
+			d, ok := in.(*ssa.Defer)
+			if !ok {
+				return
+			}
+			mc, ok := d.Call.Value.(*ssa.MakeClosure)
+			if !ok {
+				return
+			}
+			cl, _ := mc.Fn.(*ssa.Function)
+			if cl == nil {
+				return
+			}
+			cfl := NewFlow(p, cl)
+			for _, s := range callsIn(cl, false, func(cc *ssa.CallCommon) bool { return calleeIs(cc, dd) }) {
+				nDef++
+				okGate, okArg := false, false
+				for _, f := range closureFactsInOuter(fl, mc, cl, cfl.At(s)) {
+					if f.Op == "false" && f.L == "p2" {
+						okGate = true
+					}
+				}
+				for _, f := range closureFactsInOuter(fl, mc, cl, FactSet{Fact{"true", cfl.K.Key(s.Common().Args[1]), ""}: true}) {
+					if strings.HasPrefix(f.L, "reflect.TypeOf(p1)") {
+						okArg = true
+					}
+				}
+				c.Check(okGate && okArg, "C14.2/delayed", "processEvent: delayed events released after the handlers, not in AddEvent mode", p.Pos(in.Pos()),
+					"the deferred function calls dispatchDelayedEvents(TypeOf(event)) only when runningInAddEvent is false", "gate: "+boolStr(okGate)+", type argument: "+boolStr(okArg))
+			}
+		})
+	}
+	if nDef == 0 {
 		// or called explicitly after the second loop
 		found := false
 		for _, s := range callsIn(pe, false, func(cc *ssa.CallCommon) bool { return calleeIs(cc, dd) }) {
@@ -369,13 +403,13 @@ func c14Delayed(c *Ctx) {
 				continue
 			}
 			f2 := NewFlow(p, fn)
-			eachInstr(fn, func(in ssa.Instruction) {
-				if mu, ok := in.(*ssa.MapUpdate); ok && strings.HasSuffix(f2.K.Key(mu.Map), kEL+"waitingEvents") {
-					if strings.HasPrefix(f2.K.Key(mu.Value), "builtin append(") {
-						okApp = true
-					}
+			// (in DelayUntil or in the non-generic method of the event loop it hands the type key to)
+			for _, d := range deepInstrs(f2, func(in ssa.Instruction) bool { _, ok := in.(*ssa.MapUpdate); return ok }, 0) {
+				mu := d.Instr.(*ssa.MapUpdate)
+				if strings.HasSuffix(d.Flow.K.Key(mu.Map), kEL+"waitingEvents") && strings.HasPrefix(d.Flow.K.Key(mu.Value), "builtin append(") {
+					okApp = true
 				}
-			})
+			}
 			break
 		}
 		c.Check(okApp, "C14.3", "DelayUntil: appends to the waiting list", p.FuncPos(du), "waitingEvents[t] = append(waitingEvents[t], event)", "DelayUntil does not append to the waiting list")
